@@ -1111,3 +1111,67 @@ def c02_native(runs=6000):
                                    observed='state %s (bit i = node i infected) at time tmin+%s has empirical probability %.4f, the master equation gives %.4f (6 standard errors = %.4f)' % (
                                        format(worst, '03b')[::-1], T, got[worst], want[worst], 6 * se[worst]))
     return n, None
+
+
+# ------------------------------------------------------------------------------------------------ C01
+def c01_native(runs=6000):
+    """fast_SIR (constant-rate fast path, weighted path, zero-rate path) and Gillespie_SIR: empirical distribution of the full state
+    vector at time tmin+T on a 4-node graph against the 81-state SIR master equation (fixed seeds; tolerance 6 standard errors), with
+    and without edge / node weights, with an initially recovered node, tmin in {0, -3.5}"""
+    import EoN
+    from . import tree_exact_native as TE
+    from scipy.linalg import expm
+    n = 0
+    G = nx.Graph(); G.add_edges_from([(0, 1), (1, 2), (2, 0), (2, 3)])
+    for (u, v), w in {(0, 1): 1.0, (1, 2): 2.0, (2, 0): 0.5, (2, 3): 1.5}.items():
+        G[u][v]['w'] = w
+    for u in G:
+        G.nodes[u]['r'] = 1.0 + 0.75 * (u % 2)
+    nodes = list(G.nodes())
+    idx = {u: i for i, u in enumerate(nodes)}
+    states = list(itertools.product((0, 1, 2), repeat=len(nodes)))
+    sid = {s: k for k, s in enumerate(states)}
+
+    def exact(rate_uv, rate_u, inf, rec, T):
+        Q = np.zeros((len(states), len(states)))
+        for s in states:
+            k = sid[s]
+            for u in nodes:
+                i = idx[u]
+                if s[i] == 1:
+                    Q[k, sid[s[:i] + (2,) + s[i + 1:]]] += rate_u(u)
+                elif s[i] == 0:
+                    r = sum(rate_uv(v, u) for v in G.neighbors(u) if s[idx[v]] == 1)
+                    if r:
+                        Q[k, sid[s[:i] + (1,) + s[i + 1:]]] += r
+            Q[k, k] = -Q[k].sum()
+        s0 = tuple(1 if u in inf else (2 if u in rec else 0) for u in nodes)
+        p0 = np.zeros(len(states)); p0[sid[s0]] = 1.0
+        return p0 @ expm(Q * T)
+    T = 1.6
+    configs = [('unweighted', 0.8, 1.1, {}), ('edge and node weights', 0.8, 1.1, dict(transmission_weight='w', recovery_weight='r')),
+               ('node weights only (constant-rate fast path of fast_SIR)', 0.8, 1.1, dict(recovery_weight='r')),
+               ('gamma = 0', 0.8, 0.0, {}), ('edge weights only', 0.6, 1.0, dict(transmission_weight='w'))]
+    for simname in ('fast_SIR', 'Gillespie_SIR'):
+        f = getattr(EoN, simname)
+        for cname, tau, gamma, kw in configs:
+            for tmin, inf, rec in ((0, [0], []), (-3.5, [1], [3]), (0.5, [0, 1], [])):
+                n += 1
+                ruv = (lambda a, b: tau * G[a][b]['w']) if 'transmission_weight' in kw else (lambda a, b: tau)
+                ru = (lambda a: gamma * G.nodes[a]['r']) if 'recovery_weight' in kw else (lambda a: gamma)
+                want = exact(ruv, ru, set(inf), set(rec), T)
+                got = np.zeros(len(states))
+                random.seed(4242 + n); np.random.seed(4242 + n)
+                for _ in range(runs):
+                    sim = f(G, tau, gamma, initial_infecteds=list(inf), initial_recovereds=list(rec), tmin=tmin, tmax=tmin + T + 0.5, return_full_data=True, **kw)
+                    st = sim.get_statuses(time=tmin + T)
+                    got[sid[tuple({'S': 0, 'I': 1, 'R': 2}[st[u]] for u in nodes)]] += 1
+                got /= runs
+                se = np.sqrt(np.maximum(want * (1 - want), 1e-4) / runs)
+                worst = int(np.argmax(np.abs(got - want) / se))
+                if abs(got[worst] - want[worst]) > 6 * se[worst]:
+                    return n, dict(simulator=simname, configuration=cname, tau=tau, gamma=gamma, tmin=tmin, initial_infecteds=inf, initial_recovereds=rec, horizon=T, runs=runs,
+                                   graph='triangle 0-1-2 with a pendant node 3 (edge weights 1, 2, 0.5, 1.5; node weights 1, 1.75, 1, 1.75)',
+                                   observed='state %s (S/I/R per node 0..3) at time tmin+%s has empirical probability %.4f, the master equation gives %.4f (6 standard errors = %.4f)' % (
+                                       ''.join('SIR'[x] for x in states[worst]), T, got[worst], want[worst], 6 * se[worst]))
+    return n, None
